@@ -79,3 +79,11 @@ pub fn ceil_log2_usize(x: F64) -> (r: usize)
 // T4: <[T]>::contains (used on id lists)
 pub assume_specification<T: core::cmp::PartialEq>[ <[T]>::contains ](s: &[T], x: &T) -> (r: bool)
     ensures r == s@.contains(*x);
+// X.into_iter().enumerate() on a Vec (R18)
+#[verifier::external_body]
+pub fn enumerate_vec<T>(v: Vec<T>) -> (r: Vec<(usize, T)>)
+    ensures r.len() == v.len(), forall|i: int| 0 <= i < r.len() ==> (#[trigger] r[i]).0 == i && r[i].1 == v[i]
+{ v.into_iter().enumerate().collect() }
+// maplit::hashmap!{ k => v } with one entry; u64::to_string (string contents are not modelled beyond this)
+#[verifier::external_body] pub fn hashmap1(k: String, v: String) -> (r: HashMap<String, String>) { let mut m = HashMap::new(); m.insert(k, v); m }
+#[verifier::external_body] pub fn u64_to_string(x: u64) -> String { x.to_string() }
